@@ -5,6 +5,7 @@ import (
 	"go/constant"
 	"go/token"
 	"go/types"
+	"sort"
 	"strconv"
 	"strings"
 
@@ -86,10 +87,42 @@ func runC45(c *an.Ctx) {
 		return strings.HasSuffix(name, suffix) && strings.Contains(name, infix)
 	}
 
-	// readers: functions that list the cache and parse a file
+	// file parsers: package-local functions reading the file named by a string
+	// parameter and parsing it with json.Unmarshal
+	parsers := map[*ssa.Function]int{}
+	for _, f := range fns {
+		if f.Parent() != nil || len(an.Calls(f, an.M("encoding/json", "", "Unmarshal"))) == 0 {
+			continue
+		}
+		off := 0
+		if f.Signature.Recv() != nil {
+			off = 1
+		}
+		for _, rd := range an.Calls(f, an.M("os", "", "ReadFile"), an.M("os", "", "Open")) {
+			for _, l := range an.Deps(an.Args(rd)[0], nil) {
+				if par, ok := l.(*ssa.Parameter); ok && par.Parent() == f && an.IsString(par.Type()) {
+					parsers[f] = an.ParamIndex(f, par)
+				}
+			}
+		}
+		_ = off
+	}
+	// readers: functions that list the cache and parse a listed file, directly
+	// or through a file parser
+	parseCalls := func(f *ssa.Function) []ssa.CallInstruction {
+		var out []ssa.CallInstruction
+		for _, call := range an.AllCalls(f) {
+			if g := an.Callee(call).Static; g != nil {
+				if _, ok := parsers[g]; ok && g != f {
+					out = append(out, call)
+				}
+			}
+		}
+		return out
+	}
 	var readers []*ssa.Function
 	for _, f := range fns {
-		if len(an.LocalCallers([]*ssa.Function{f}, lister)) > 0 && len(an.Calls(f, an.M("encoding/json", "", "Unmarshal"))) > 0 {
+		if len(an.LocalCallers([]*ssa.Function{f}, lister)) > 0 && (len(an.Calls(f, an.M("encoding/json", "", "Unmarshal"))) > 0 || len(parseCalls(f)) > 0) {
 			readers = append(readers, f)
 		}
 	}
@@ -135,6 +168,18 @@ func runC45(c *an.Ctx) {
 					readerFallback = false
 					whyNoB = append(whyNoB, an.FuncName(r)+": a parse error of the newest file leaves the reader")
 				}
+			}
+		}
+		for _, pc := range parseCalls(r) {
+			a := an.ArgAt(pc, parsers[an.Callee(pc).Static])
+			if a == nil || !fromList(a) {
+				continue
+			}
+			nRead++
+			errEdges := an.NilEdges(r, an.ErrResult(pc), false)
+			if len(errEdges) == 0 || !an.EdgeLeadsTo(errEdges, pc, nil, nil) {
+				readerFallback = false
+				whyNoB = append(whyNoB, an.FuncName(r)+": a read or parse error of the newest file ("+an.Callee(pc).Name+") leaves the reader")
 			}
 		}
 		if nRead == 0 {
@@ -269,13 +314,39 @@ func runC45(c *an.Ctx) {
 
 	// ---- O2: reader returns a config only after successful read + parse
 	nO2 := 0
-	for _, r := range readers {
+	subjects := append([]*ssa.Function{}, readers...)
+	for g := range parsers {
+		isR := false
+		for _, r := range readers {
+			isR = isR || r == g
+		}
+		if !isR {
+			subjects = append(subjects, g)
+		}
+	}
+	sort.Slice(subjects, func(i, j int) bool { return subjects[i].Pos() < subjects[j].Pos() })
+	for _, r := range subjects {
 		ums := an.Calls(r, an.M("encoding/json", "", "Unmarshal"))
 		for _, rs := range an.ResultSites(r, 0) {
-			if an.IsNilConst(rs.Val) {
+			if an.IsNilConst(rs.Val) || !an.TypeIs(rs.Val.Type(), pk, "Config") {
 				continue
 			}
 			nO2++
+			// the configuration is the result of a file parser, taken on its nil edge
+			viaParser := false
+			for _, pc := range parseCalls(r) {
+				for _, rv := range an.Result(pc, 0) {
+					for _, root := range an.Roots(rs.Val, nil) {
+						if root == rv && an.OnNilEdgeOf(r, pc, rs.At) {
+							viaParser = true
+						}
+					}
+				}
+			}
+			if viaParser {
+				c.OK("O2", "R-DOM", an.FuncName(r), "return-config<=read-ok&&parse-ok", rs.At.Pos(), "configuration returned only on the nil-error edge of the file parser")
+				continue
+			}
 			var um ssa.CallInstruction
 			for _, u := range ums {
 				// the object returned is the one parsed into
@@ -364,52 +435,98 @@ func runC45(c *an.Ctx) {
 		return false
 	}
 	foreign := map[*ssa.Function]string{}
-	for _, f := range fns {
+	// paramFail[f][i]: f fails when the file named by its string parameter i
+	// cannot be read (whether that is a listed config file is decided by the callers)
+	paramFail := map[*ssa.Function]map[int]bool{}
+	fromListIn := func(f *ssa.Function, v ssa.Value) bool {
 		listCalls := an.LocalCallers([]*ssa.Function{f}, lister)
-		for _, rd := range an.Calls(f, an.M("os", "", "ReadFile"), an.M("os", "", "Open"), an.M("os", "", "Stat"), an.M("os", "", "Lstat")) {
-			fromList := false
-			for _, l := range an.Deps(an.Args(rd)[0], &an.DepOpts{Stop: func(x ssa.Value) bool {
-				for _, lc := range listCalls {
-					if x == ssa.Value(an.CallValue(lc)) {
-						return true
-					}
-				}
-				return false
-			}}) {
-				for _, lc := range listCalls {
-					if l == ssa.Value(an.CallValue(lc)) {
-						fromList = true
-					}
+		isL := func(x ssa.Value) bool {
+			for _, lc := range listCalls {
+				if x == ssa.Value(an.CallValue(lc)) {
+					return true
 				}
 			}
-			if fromList {
-				continue
-			}
-			if errLeaves(f, an.NilEdges(f, an.ErrResult(rd), false)) {
-				what := "a file that is not a listed config file"
-				for _, l := range an.Deps(an.Args(rd)[0], nil) {
-					if k, ok := an.ConstOf(l); ok && k.Kind() == constant.String && constant.StringVal(k) != "" {
-						what = "the metadata file " + strconv.Quote(constant.StringVal(k))
-					}
-				}
-				foreign[f] = an.FuncName(f) + " fails when " + what + " cannot be read"
+			return false
+		}
+		for _, l := range an.Deps(v, &an.DepOpts{Stop: isL}) {
+			if isL(l) {
+				return true
 			}
 		}
+		return false
+	}
+	ownParam := func(f *ssa.Function, v ssa.Value) (int, bool) {
+		// the path *is* the parameter (not a file below a directory parameter)
+		rs := an.Roots(v, nil)
+		if len(rs) == 1 {
+			if par, ok := rs[0].(*ssa.Parameter); ok && par.Parent() == f && an.IsString(par.Type()) {
+				return an.ParamIndex(f, par), true
+			}
+		}
+		return 0, false
+	}
+	describe := func(v ssa.Value) string {
+		what := "a file that is not a listed config file"
+		for _, l := range an.Deps(v, nil) {
+			if k, ok := an.ConstOf(l); ok && k.Kind() == constant.String && constant.StringVal(k) != "" {
+				what = "the metadata file " + strconv.Quote(constant.StringVal(k))
+			}
+		}
+		return what
+	}
+	markParam := func(f *ssa.Function, i int) bool {
+		if paramFail[f] == nil {
+			paramFail[f] = map[int]bool{}
+		}
+		if paramFail[f][i] {
+			return false
+		}
+		paramFail[f][i] = true
+		return true
 	}
 	for changed := true; changed; {
 		changed = false
 		for _, f := range fns {
-			if foreign[f] != "" {
-				continue
+			for _, rd := range an.Calls(f, an.M("os", "", "ReadFile"), an.M("os", "", "Open"), an.M("os", "", "Stat"), an.M("os", "", "Lstat")) {
+				pth := an.Args(rd)[0]
+				if fromListIn(f, pth) || !errLeaves(f, an.NilEdges(f, an.ErrResult(rd), false)) {
+					continue
+				}
+				if i, ok := ownParam(f, pth); ok && f.Object() != nil && !f.Object().Exported() {
+					if markParam(f, i) {
+						changed = true
+					}
+					continue
+				}
+				if foreign[f] == "" {
+					foreign[f] = an.FuncName(f) + " fails when " + describe(pth) + " cannot be read"
+					changed = true
+				}
 			}
 			for _, call := range an.AllCalls(f) {
 				g := an.Callee(call).Static
-				if g == nil || foreign[g] == "" {
+				if g == nil || !errLeaves(f, an.NilEdges(f, an.ErrResult(call), false)) {
 					continue
 				}
-				if errLeaves(f, an.NilEdges(f, an.ErrResult(call), false)) {
+				if foreign[g] != "" && foreign[f] == "" {
 					foreign[f] = foreign[g]
 					changed = true
+				}
+				for i := range paramFail[g] {
+					a := an.ArgAt(call, i)
+					if a == nil || fromListIn(f, a) {
+						continue
+					}
+					if j, ok := ownParam(f, a); ok && f.Object() != nil && !f.Object().Exported() {
+						if markParam(f, j) {
+							changed = true
+						}
+						continue
+					}
+					if foreign[f] == "" {
+						foreign[f] = an.FuncName(g) + " (called from " + an.FuncName(f) + ") fails when " + describe(a) + " cannot be read"
+						changed = true
+					}
 				}
 			}
 		}
@@ -465,7 +582,7 @@ func runC45(c *an.Ctx) {
 							continue
 						}
 						why = "the parsed configuration is not validated (validateConfig) before the save"
-						for _, vc := range an.Calls(f, an.M(pk, "Client", "validateConfig")) {
+						for _, vc := range c45ValidateCalls(f, pk) {
 							sameCfg := false
 							for _, l := range an.Deps(an.Args(vc)[0], nil) {
 								for _, m := range an.Deps(an.Args(um)[1], nil) {
@@ -475,6 +592,20 @@ func runC45(c *an.Ctx) {
 								}
 							}
 							if sameCfg && an.OnNilEdgeOf(f, vc, call) {
+								ok = true
+							}
+						}
+					}
+				}
+				if !ok && data != nil {
+					// parse + validate delegated to a helper of the package
+					for _, hc := range an.AllCalls(f) {
+						h := an.Callee(hc).Static
+						if h == nil || h.Blocks == nil || h.Pkg != f.Pkg || h == f {
+							continue
+						}
+						for i, a := range an.Args(hc) {
+							if an.SameObj(a, data) && c45Validates(h, i, pk) && an.OnNilEdgeOf(f, hc, call) {
 								ok = true
 							}
 						}
@@ -640,7 +771,7 @@ func runC45(c *an.Ctx) {
 					"cacheSize can be set to a value < 1: cleanup (files[cacheSize:]) would then delete every cached version including the newest")
 			}
 		}
-		c.Min("O5 stores to cacheSize", nSt, 2)
+		c.Min("O5 stores to cacheSize", nSt, 1)
 	}
 }
 
@@ -648,7 +779,90 @@ func runC45(c *an.Ctx) {
 // Name() of an os.CreateTemp file whose pattern the lister rejects, and the
 // rename is reached only after every write to that file succeeded.
 func c45RenameFromTemp(fn *ssa.Function, rename ssa.CallInstruction, matches func(string) bool) (bool, string) {
-	src := an.Args(rename)[0]
+	final := an.Args(rename)[1]
+	sameDirAs := func(v ssa.Value) bool {
+		for _, l := range an.Deps(v, nil) {
+			for _, m := range an.Deps(final, nil) {
+				if _, isConst := l.(*ssa.Const); !isConst && l == m {
+					return true
+				}
+			}
+		}
+		return false
+	}
+	return c45TempSource(fn, an.Args(rename)[0], rename, sameDirAs, matches, 0)
+}
+
+// c45TempSource: value src, needed at instruction `at` of fn, is the name of an
+// os.CreateTemp file (pattern rejected by the lister, directory accepted by
+// dirOK) and `at` is reached only after every write to that file succeeded.
+// The temp file may be produced by a helper of the package that returns its
+// name: then the helper's successful returns take the place of `at`.
+func c45TempSource(fn *ssa.Function, src ssa.Value, at ssa.Instruction, dirOK func(ssa.Value) bool, matches func(string) bool, depth int) (bool, string) {
+	isLocal := func(x ssa.Value) (*ssa.Call, int) {
+		idx := 0
+		if e, ok := x.(*ssa.Extract); ok {
+			x, idx = e.Tuple, e.Index
+		}
+		call, ok := x.(*ssa.Call)
+		if !ok {
+			return nil, 0
+		}
+		if g := an.Callee(call).Static; g != nil && g.Blocks != nil && g.Pkg == fn.Pkg && g != fn {
+			return call, idx
+		}
+		return nil, 0
+	}
+	for _, l := range an.Deps(src, &an.DepOpts{Stop: func(x ssa.Value) bool {
+		if _, ok := an.IsCallTo(x, an.M("os", "", "CreateTemp")); ok {
+			return true
+		}
+		lc, _ := isLocal(x)
+		return lc != nil
+	}}) {
+		if lc, idx := isLocal(l); lc != nil && depth < 2 {
+			g := an.Callee(lc).Static
+			if !an.OnNilEdgeOf(fn, lc, at) {
+				return false, "the temporary file name returned by " + g.Name() + " is used although the helper reported an error"
+			}
+			off := 0
+			if g.Signature.Recv() != nil {
+				off = 1
+			}
+			inner := func(v ssa.Value) bool {
+				// the helper's directory value, seen from the caller
+				for _, d := range an.Deps(v, nil) {
+					if par, ok := d.(*ssa.Parameter); ok && par.Parent() == g {
+						if a := an.ArgAt(lc, an.ParamIndex(g, par)); a != nil && dirOK(a) {
+							return true
+						}
+					}
+				}
+				return false
+			}
+			_ = off
+			n := g.Signature.Results().Len()
+			nSucc := 0
+			for _, es := range an.ResultSites(g, n-1) {
+				if !an.IsNilConst(es.Val) {
+					continue
+				}
+				for _, ss := range an.ResultSites(g, idx) {
+					if ss.Ret != es.Ret {
+						continue
+					}
+					nSucc++
+					if ok, why := c45TempSource(g, ss.Val, ss.At, inner, matches, depth+1); !ok {
+						return false, why
+					}
+				}
+			}
+			if nSucc == 0 {
+				return false, "helper " + g.Name() + " has no successful return"
+			}
+			return true, ""
+		}
+	}
 	var tmpCalls []*ssa.Call
 	for _, l := range an.Deps(src, &an.DepOpts{Stop: func(x ssa.Value) bool {
 		_, ok := an.IsCallTo(x, an.M("os", "", "CreateTemp"))
@@ -668,16 +882,7 @@ func c45RenameFromTemp(fn *ssa.Function, rename ssa.CallInstruction, matches fun
 	}
 	for _, ct := range tmpCalls {
 		// same directory as the final name (rename is atomic only within a file system)
-		final := an.Args(rename)[1]
-		sameDir := false
-		for _, l := range an.Deps(ct.Call.Args[0], nil) {
-			for _, m := range an.Deps(final, nil) {
-				if _, isConst := l.(*ssa.Const); !isConst && l == m {
-					sameDir = true
-				}
-			}
-		}
-		if !sameDir {
+		if !dirOK(ct.Call.Args[0]) {
 			return false, "the temporary file is not created in the directory of the final name (os.Rename across directories/file systems is not an atomic replace)"
 		}
 		k, ok := an.ConstOf(ct.Call.Args[1])
@@ -723,7 +928,7 @@ func c45RenameFromTemp(fn *ssa.Function, rename ssa.CallInstruction, matches fun
 				continue
 			}
 			nW++
-			if !an.OnNilEdgeOf(fn, w, rename) {
+			if !an.OnNilEdgeOf(fn, w, at) {
 				return false, "os.Rename to the final name is reachable although writing the temporary file failed (or before it was written)"
 			}
 		}
@@ -732,4 +937,67 @@ func c45RenameFromTemp(fn *ssa.Function, rename ssa.CallInstruction, matches fun
 		}
 	}
 	return true, ""
+}
+
+// c45Validates: helper h returns a nil error only after json.Unmarshal of its
+// parameter i and validateConfig of the parsed configuration both succeeded.
+func c45Validates(h *ssa.Function, i int, pk string) bool {
+	off := 0
+	if h.Signature.Recv() != nil {
+		off = 1
+	}
+	n := h.Signature.Results().Len()
+	if i+off >= len(h.Params) || n == 0 || !an.IsErrorType(h.Signature.Results().At(n-1).Type()) {
+		return false
+	}
+	par := h.Params[i+off]
+	for _, um := range an.Calls(h, an.M("encoding/json", "", "Unmarshal")) {
+		if an.Args(um)[0] != ssa.Value(par) {
+			continue
+		}
+		for _, vc := range c45ValidateCalls(h, pk) {
+			same := false
+			for _, l := range an.Deps(an.Args(vc)[0], nil) {
+				for _, m := range an.Deps(an.Args(um)[1], nil) {
+					if l == m {
+						same = true
+					}
+				}
+			}
+			if !same {
+				continue
+			}
+			all, nSucc := true, 0
+			for _, rs := range an.ResultSites(h, n-1) {
+				if !an.IsNilConst(rs.Val) {
+					continue
+				}
+				nSucc++
+				if !an.OnNilEdgeOf(h, um, rs.At) || !an.OnNilEdgeOf(h, vc, rs.At) {
+					all = false
+				}
+			}
+			if all && nSucc > 0 {
+				return true
+			}
+		}
+	}
+	return false
+}
+
+// c45ValidateCalls: calls of the configuration validator — by role: a function
+// or method of the package taking a *Config (only) and returning only an error.
+func c45ValidateCalls(f *ssa.Function, pk string) []ssa.CallInstruction {
+	var out []ssa.CallInstruction
+	for _, call := range an.AllCalls(f) {
+		g := an.Callee(call).Static
+		if g == nil || g.Pkg == nil || g.Pkg.Pkg.Path() != an.Mod+"/"+pk {
+			continue
+		}
+		ps, rs := g.Signature.Params(), g.Signature.Results()
+		if ps.Len() == 1 && an.TypeIs(ps.At(0).Type(), pk, "Config") && rs.Len() == 1 && an.IsErrorType(rs.At(0).Type()) {
+			out = append(out, call)
+		}
+	}
+	return out
 }
